@@ -46,6 +46,12 @@ def main(argv):
         ctx.obs["shadow_repeats_of_parse_calls"] += vrun.SHADOW["n"]
         if vrun.SHADOW.get("bystander_n"):
             ctx.obs["shadow_runs_with_a_bystander_object"] += vrun.SHADOW["bystander_n"]
+        if vrun.SHADOW.get("bystander_exc_n"):
+            ctx.obs["shadow_raising_calls_with_a_bystander_object"] += vrun.SHADOW["bystander_exc_n"]
+        if vrun.SHADOW.get("final_newline_n"):
+            ctx.obs["shadow_runs_with_the_final_line_end_toggled"] += vrun.SHADOW["final_newline_n"]
+        if vrun.SHADOW.get("neighbour_n"):
+            ctx.obs["shadow_runs_with_neighbour_statements"] += vrun.SHADOW["neighbour_n"]
         ctx.evaluated(2 * vrun.SHADOW["n"])
         res.update(ctx.result())
         st = hooks.STATE
